@@ -232,7 +232,7 @@ impl Scenario for Udp {
             let nf = 1 + rng.usize_below(3);
             flows = draw_flows(&mut rng, nf, false);
             let n = 1 + rng.usize_below(8);
-            let big = tier == Tier::Thorough && rng.chance(1, 100);
+            let big = rng.chance(1, if tier == Tier::Thorough { 50 } else { 25 });
             for _ in 0..n {
                 let f = rng.usize_below(flows.len());
                 let kind = match rng.below(10) {
@@ -244,7 +244,13 @@ impl Scenario for Udp {
                 let payload = match rng.below(5) {
                     0 => 0,
                     1 => 1 + rng.usize_below(8),
-                    _ if big => rng.size(1, 65_000) as usize,
+                    // up to the largest payload a UDP datagram can carry (65 507), with the
+                    // sizes around the arithmetic of the decoder's limit among them
+                    _ if big => match rng.below(3) {
+                        0 => *rng.pick(&[65_507usize, 65_506, 65_500, 65_471, 65_470, 65_435, 65_434, 65_433, 65_426, 64_924, 64_925]),
+                        1 => 65_507 - rng.usize_below(600),
+                        _ => rng.size(1, 65_507) as usize,
+                    },
                     _ => rng.size(1, 2048) as usize,
                 };
                 ops.push(UOp::Rec { flow: f, kind, payload, app: rng.usize_below(APPS.len()) });
@@ -263,6 +269,7 @@ impl Scenario for Udp {
             3 => 3,
             _ => 1 + rng.usize_below(10),
         };
+        let big_run = ops.iter().any(|o| matches!(o, UOp::Rec { payload, .. } if *payload > 60_000));
         let plan = UPlan {
             seed: rng.next_u64(),
             h2,
@@ -270,7 +277,8 @@ impl Scenario for Udp {
             flows,
             ops,
             cuts: (0..n_cuts).map(|_| 1 + rng.usize_below(120)).collect(),
-            bytewise: !self.flows_mode && rng.chance(1, 8),
+            // (byte-at-a-time delivery of 65 KB records costs seconds per run: small records only)
+            bytewise: !self.flows_mode && !big_run && rng.chance(1, 8),
             client_window: 1 << 20,
         };
         to_plan(&plan)
@@ -529,8 +537,9 @@ async fn run(plan: UPlan, flows_mode: bool) -> Obs {
                                 (v, false)
                             }
                             RecKind::TooLarge => {
-                                // a record of 65 500 bytes: beyond a UDP payload
-                                let big = pattern(9, 0, 65_500);
+                                // beyond what any UDP datagram carries (65 507 over IPv4; the
+                                // endpoint's own constant is 65 508, which is left alone)
+                                let big = pattern(9, 0, 65_509 + (j * 977) % 3_000);
                                 (encode_record(src, dst, &app_b, &big, None), false)
                             }
                             RecKind::BadName => (encode_record(src, dst, &[0xff, 0xfe, 0xc3], &pl, None), false),
@@ -825,13 +834,28 @@ fn judge(plan: &UPlan, o: &Obs, flows_mode: bool, out: &mut Outcome) {
             if gp != ep {
                 let first_bad = gp.iter().zip(&ep).position(|(a, b)| a != b).unwrap_or(gp.len().min(ep.len()));
                 let invalid_before = o.sent.iter().any(|r| !r.valid);
+                // everything but the datagrams near the UDP maximum arrived, in order
+                let only_large_missing = {
+                    let mut g = gp.iter().peekable();
+                    let mut ok = true;
+                    for e in &ep {
+                        if g.peek().map_or(false, |x| **x == *e) {
+                            g.next();
+                        } else if e.len() <= 64_000 {
+                            ok = false;
+                            break;
+                        }
+                    }
+                    ok && g.peek().is_none()
+                };
+                let key = if only_large_missing {
+                    format!("udpcodec:{}:large-datagram-dropped", proto)
+                } else {
+                    format!("udpcodec:{}:datagrams-differ:{}", proto, if invalid_before { "with-invalid-records" } else { "valid-only" })
+                };
                 out.violate(
                     "C06",
-                    format!(
-                        "udpcodec:{}:datagrams-differ:{}",
-                        proto,
-                        if invalid_before { "with-invalid-records" } else { "valid-only" }
-                    ),
+                    key,
                     format!(
                         "flow {} -> {}: {} datagrams left the endpoint, the client encoded {}; first difference at #{} (sizes sent {:?}, expected {:?}); cuts {:?} bytewise {}",
                         f, dst, gp.len(), ep.len(), first_bad,
